@@ -247,20 +247,23 @@ type fnStat struct {
 }
 
 type stats struct {
-	Repo            string         `json:"repo"`
-	Roots           []string       `json:"roots"`
-	EngineMethods   []string       `json:"engine_methods"`
-	EngineIfaces    []string       `json:"engine_interfaces"`
-	Functions       int            `json:"functions"`
-	FaultCapable    int            `json:"functions_that_can_observe_a_fault"`
-	GoStatements    int            `json:"go_statements"`
-	GoStmtKinds     map[string]int `json:"go_statement_kinds"`
-	Nodes           map[string]int `json:"errflow_nodes"`
-	Unknowns        []unknownRec   `json:"unknowns"`
-	UnknownSigLeafs int            `json:"leaf_calls_without_source_signature"`
-	LhsTyped        []unknownRec   `json:"leaf_calls_typed_by_left_hand_side"`
-	PerFunction     []fnStat       `json:"per_function"`
-	Packages        []string       `json:"packages_parsed"`
+	Repo             string         `json:"repo"`
+	Roots            []string       `json:"roots"`
+	EngineMethods    []string       `json:"engine_methods"`
+	EngineIfaces     []string       `json:"engine_interfaces"`
+	Functions        int            `json:"functions"`
+	CallGraphAcyclic bool           `json:"call_graph_acyclic"`
+	MaxCallDepth     int            `json:"max_call_depth"`
+	Recursive        []string       `json:"functions_on_a_call_cycle"`
+	FaultCapable     int            `json:"functions_that_can_observe_a_fault"`
+	GoStatements     int            `json:"go_statements"`
+	GoStmtKinds      map[string]int `json:"go_statement_kinds"`
+	Nodes            map[string]int `json:"errflow_nodes"`
+	Unknowns         []unknownRec   `json:"unknowns"`
+	UnknownSigLeafs  int            `json:"leaf_calls_without_source_signature"`
+	LhsTyped         []unknownRec   `json:"leaf_calls_typed_by_left_hand_side"`
+	PerFunction      []fnStat       `json:"per_function"`
+	Packages         []string       `json:"packages_parsed"`
 }
 
 func main() {
@@ -298,6 +301,43 @@ func main() {
 		for _, sub := range []string{"view", "tree", "codec", "conv", "bitfields"} {
 			if p := loadPkg(filepath.Join(zdir, sub), ztypPath+"/"+sub, zdir, false); p != nil {
 				parsed = append(parsed, ztypPath+"/"+sub+" (signatures only)")
+			}
+		}
+	}
+	// other packages of the repository and third-party modules the parsed files import: signatures only
+	mods := moduleDirs(repo)
+	for _, p := range append([]*Pkg{}, repoPkgs...) {
+		for _, f := range p.files {
+			var paths []string
+			for _, path := range f.imports {
+				paths = append(paths, path)
+			}
+			paths = append(paths, f.dots...)
+			sort.Strings(paths)
+			for _, path := range paths {
+				if pkgsByPath[path] != nil {
+					continue
+				}
+				dir := ""
+				if strings.HasPrefix(path, modPath+"/") {
+					dir = filepath.Join(repo, filepath.FromSlash(path[len(modPath)+1:]))
+				} else {
+					best := ""
+					for m := range mods {
+						if (path == m || strings.HasPrefix(path, m+"/")) && len(m) > len(best) {
+							best = m
+						}
+					}
+					if best != "" {
+						dir = filepath.Join(mods[best], filepath.FromSlash(strings.TrimPrefix(path[len(best):], "/")))
+					}
+				}
+				if dir == "" {
+					continue
+				}
+				if q := loadPkg(dir, path, dir, false); q != nil {
+					parsed = append(parsed, path+" (signatures only)")
+				}
 			}
 		}
 	}
@@ -394,11 +434,60 @@ func main() {
 		}
 	}
 
+	// call graph of the table: acyclic? how deep? (the fuel of the Coq semantics bounds the call depth only)
+	depth := map[string]int{}
+	state := map[string]int{}
+	cyclic := false
+	var recursive []string
+	var visit func(id string) int
+	var callees func(s *S, acc map[string]bool)
+	callees = func(s *S, acc map[string]bool) {
+		if s == nil {
+			return
+		}
+		if s.op == "Call" {
+			acc[s.name] = true
+		}
+		callees(s.a, acc)
+		callees(s.b, acc)
+	}
+	visit = func(id string) int {
+		if state[id] == 2 {
+			return depth[id]
+		}
+		if state[id] == 1 {
+			cyclic = true
+			recursive = append(recursive, id)
+			return 0
+		}
+		state[id] = 1
+		d := 1
+		if f := byID[id]; f != nil {
+			acc := map[string]bool{}
+			callees(done[f].body, acc)
+			for c := range acc {
+				if x := visit(c) + 1; x > d {
+					d = x
+				}
+			}
+		}
+		state[id] = 2
+		depth[id] = d
+		return d
+	}
+	maxDepth := 0
+	for _, f := range order {
+		if d := visit(f.id); d > maxDepth {
+			maxDepth = d
+		}
+	}
+
 	// output
 	var b strings.Builder
 	b.WriteString("(* GENERATED by tools/errflow2coq from " + repo + " - do not edit. *)\n")
 	b.WriteString("From Coq Require Import String List.\nFrom V Require Import Conc.ErrFlow.\nImport ListNotations.\nOpen Scope string_scope.\n\n")
-	st := stats{Repo: repo, GoStmtKinds: map[string]int{}, Nodes: map[string]int{}, Packages: parsed, EngineIfaces: engineIfaces}
+	st := stats{Repo: repo, GoStmtKinds: map[string]int{}, Nodes: map[string]int{}, Packages: parsed, EngineIfaces: engineIfaces,
+		CallGraphAcyclic: !cyclic, MaxCallDepth: maxDepth, Recursive: recursive}
 	for m := range engineMethods {
 		st.EngineMethods = append(st.EngineMethods, m)
 	}
@@ -500,6 +589,37 @@ func sum(m map[string]int) int {
 	return n
 }
 
+var requireRe = regexp.MustCompile(`(?m)^\s*(?:require\s+)?([a-z0-9./_-]+\.[a-z0-9./_-]+)\s+(v[^\s/]+)`)
+
+// module path -> directory in the module cache, for the modules go.mod requires
+func moduleDirs(repo string) map[string]string {
+	out := map[string]string{}
+	src, err := os.ReadFile(filepath.Join(repo, "go.mod"))
+	if err != nil {
+		return out
+	}
+	var caches []string
+	if c := os.Getenv("GOMODCACHE"); c != "" {
+		caches = append(caches, c)
+	}
+	if g := os.Getenv("GOPATH"); g != "" {
+		caches = append(caches, filepath.Join(g, "pkg", "mod"))
+	}
+	if h, err := os.UserHomeDir(); err == nil {
+		caches = append(caches, filepath.Join(h, "go", "pkg", "mod"))
+	}
+	for _, m := range requireRe.FindAllSubmatch(src, -1) {
+		for _, c := range caches {
+			d := filepath.Join(c, filepath.FromSlash(string(m[1]))+"@"+string(m[2]))
+			if fi, err := os.Stat(d); err == nil && fi.IsDir() {
+				out[string(m[1])] = d
+				break
+			}
+		}
+	}
+	return out
+}
+
 func findGoroot() string {
 	for _, c := range []string{os.Getenv("GOROOT"), runtime.GOROOT(), "/usr/local/go", "/usr/lib/go"} {
 		if c == "" {
@@ -548,9 +668,14 @@ From V Require Import Conc.ErrFlow Conc.ErrFlowCheck Conc.ErrFlowSound.
 From G Require Import GenErrFlow.
 Import ListNotations.
 
-(* printed first, so that a failing obligation still names every offending function and position *)
-Definition gen_problems := Eval vm_compute in errflow_problems GenErrFlow.program.
-Print gen_problems.
+(* printed first, so that a failing obligation still names every offending function and position:
+   (function, position, reason, position of the call whose error or verdict is lost) *)
+Definition gen_fault_list := Eval vm_compute in map show_problem (fault_problems GenErrFlow.program).
+Print gen_fault_list.
+Definition gen_leaf_list := Eval vm_compute in map show_problem (leaf_problems GenErrFlow.program).
+Print gen_leaf_list.
+Definition gen_ctx_list := Eval vm_compute in map show_problem (ctx_coverage_problems GenErrFlow.program).
+Print gen_ctx_list.
 Definition gen_counts := Eval vm_compute in
   (length (funs GenErrFlow.program), count_prog is_poll GenErrFlow.program, count_prog is_engine GenErrFlow.program,
    count_prog is_call GenErrFlow.program, count_prog is_lib GenErrFlow.program, count_prog is_iferr GenErrFlow.program,
@@ -569,6 +694,7 @@ Proof. vm_compute. reflexivity. Qed.
 Definition gen_faults_surface := errflow_ok_sound GenErrFlow.program gen_errflow_ok.
 Definition gen_verdict_faults_surface := errflow_ok_sound_verdict GenErrFlow.program gen_errflow_ok.
 Definition gen_success_is_undisturbed := ok_is_undisturbed GenErrFlow.program gen_errflow_ok.
+Definition gen_no_panic := errflow_ok_no_panic GenErrFlow.program gen_errflow_ok.
 Definition gen_no_fault_same := no_fault_same GenErrFlow.program.
 Check gen_faults_surface.
 Print Assumptions gen_faults_surface.
